@@ -460,6 +460,15 @@ def _group(tlist, cls, match,
            ):
     """Groups together tokens that are joined by a middle token. i.e. x < y"""
 
+    # The opening and closing tokens of a matched group (parenthesis, brackets,
+    # CASE ... END, ...) delimit the group, they are never operands.
+    delimiters = ()
+    if isinstance(tlist, (sql.Parenthesis, sql.SquareBrackets, sql.Case,
+                          sql.If, sql.For, sql.Begin)) and tlist.tokens:
+        # comments may have been attached after the closing token
+        _, closing = tlist.token_prev(len(tlist.tokens), skip_cm=True)
+        delimiters = (tlist.tokens[0], closing)
+
     tidx_offset = 0
     pidx, prev_ = None, None
     for idx, token in enumerate(list(tlist)):
@@ -477,6 +486,10 @@ def _group(tlist, cls, match,
             nidx, next_ = tlist.token_next(tidx)
             if prev_ and valid_prev(prev_) and valid_next(next_):
                 from_idx, to_idx = post(tlist, pidx, tidx, nidx)
+                if any(tlist.tokens[i] is d
+                       for i in (from_idx, to_idx) for d in delimiters):
+                    pidx, prev_ = tidx, token
+                    continue
                 grp = tlist.group_tokens(cls, from_idx, to_idx, extend=extend)
 
                 tidx_offset += to_idx - from_idx
